@@ -206,7 +206,7 @@ pub fn run(args: &Args, report: &mut Report) {
     let (cases, nconf, max_input) = match (args.thorough, prop.as_str()) {
         (false, "C16") => (20, 3, 600),
         (false, "C18") => (5, 4, 400),
-        (true, "C18") => (40, 4, 1500),
+        (true, "C18") => (40, 4, 500),
         (false, _) => (16, 4, 400),
         (true, "C16") => (160, 4, 3000),
         (true, _) => (130, 6, 3000),
